@@ -178,36 +178,54 @@ def run(res):
     # concurrency: the same long-lived structures and formula objects queried from several threads at once; every
     # answer must be the one obtained sequentially
     import threading
-    tK = [random_structure(rng, 5) for _ in range(3)]
+    import sys as _sys
+    from common import big_structure
+    tK = [random_structure(rng, 5) for _ in range(2)] + [big_structure(rng, 8, 10)]
     tk = [k.to_impl() for k in tK]
     tf = []
-    for _ in range(4):
-        tf.append(('CTL', to_obj(F.rand_ctl(rng, 3), lang('CTL'))))
+    for _ in range(6):
+        tf.append(('CTL', to_obj(F.rand_ctl(rng, rng.choice([3, 4, 5])), lang('CTL'))))
         tf.append(('CTLS', to_obj(F.rand_ctls_state(rng, 3, max_temporal=2), lang('CTLS'))))
+    for _ in range(2):
         tf.append(('LTL', to_obj(('A', F.rand_ltl_path(rng, 2, max_temporal=2)), lang('LTL'))))
     jobs_t = [(ki, fi) for ki in range(len(tk)) for fi in range(len(tf))]
 
     def ask(ki, fi):
         logic, o = tf[fi]
         try:
-            with contextlib.redirect_stdout(io.StringIO()):
-                return 'OK ' + ' '.join(map(str, sorted(lang(logic).modelcheck(tk[ki], o))))
+            return 'OK ' + ' '.join(map(str, sorted(lang(logic).modelcheck(tk[ki], o))))
         except Exception as e:
             return 'ERR ' + type(e).__name__
+    real_stdout = _sys.stdout
+    _sys.stdout = io.StringIO()          # one redirection for the whole section (redirect_stdout is not thread-safe)
     seq_ans = {j: ask(*j) for j in jobs_t}
     par_ans = {}
 
     def worker(share):
         for j in share:
             par_ans[j] = ask(*j)
-    order_t = list(jobs_t) * 2
+    order_t = list(jobs_t) * (3 if quick else 10)
     rng.shuffle(order_t)
-    threads = [threading.Thread(target=worker, args=(order_t[i::4],)) for i in range(4)]
-    for th in threads:
-        th.start()
-    for th in threads:
-        th.join()
-    tbad = [j for j in jobs_t if par_ans.get(j) != seq_ans[j]]
+    par_bad = {}
+
+    def worker(share):                                      # noqa: F811
+        for j in share:
+            a_ = ask(*j)
+            if a_ != seq_ans[j]:
+                par_bad[j] = a_
+    old_si = _sys.getswitchinterval()
+    _sys.setswitchinterval(1e-6)                            # switch threads as often as the interpreter allows
+    try:
+        threads = [threading.Thread(target=worker, args=(order_t[i::4],)) for i in range(4)]
+        for th in threads:
+            th.start()
+        for th in threads:
+            th.join()
+    finally:
+        _sys.setswitchinterval(old_si)
+        _sys.stdout = real_stdout
+    par_ans = dict(seq_ans, **par_bad)
+    tbad = sorted(par_bad)
     for j in tbad[:2]:
         violations.append(('queried from 4 threads at once, %s on structure #%d answers %s; alone it answers %s'
                            % (tf[j[1]][1], j[0], par_ans.get(j), seq_ans[j]),
